@@ -34,11 +34,84 @@ UNIT_MAX = 1 << 40
 SHARED = ('global:__flp', 'global:__brkval', 'global:__allocation_counter')
 
 
-class HeapInterp(Interp):
-    """Interp + symbolic-offset cells for one arena object + lock/footprint monitors"""
+class SymInterp(Interp):
+    """Interp + cells at symbolic offsets for the objects in sym_objs (kept in state.ghost['cells'] as
+    (offset Lin, size, value); a load returns the cell provably at that offset, a store drops every
+    cell not provably disjoint).  Loops must be decided by the configuration (never abstracted), since
+    these cells are invisible to the engine's loop-head abstraction."""
+
+    def __init__(self, mod, sym_objs, externals=None):
+        super().__init__(mod, externals=externals)
+        self.sym_objs = set(sym_objs)
+
+    def sym_access(self, st, p, size, inst, kind):
+        self.check_access(st, p, size, inst, kind)
+
+    def drop_overlapping(self, st, obj, off, size):
+        keep = []
+        for c in st.ghost.get('cells', ()):
+            (cobj, coff, csz, cv) = c
+            if cobj != obj or st.cons.entails_le(off + size, coff) or st.cons.entails_le(coff + csz, off):
+                keep.append(c)
+        st.ghost['cells'] = tuple(keep)
+
+    def load(self, st, p, ty, inst):
+        if isinstance(p, PtrVal) and p.obj in self.sym_objs:
+            size = ty.get('size')
+            if ty.get('k') == 'int':
+                size = (ty['bits'] + 7) // 8
+            self.sym_access(st, p, size, inst, 'load')
+            if st.bottom:
+                return TOP
+            for (cobj, coff, csz, cv) in st.ghost.get('cells', ()):
+                if cobj == p.obj and csz == size and st.cons.entails_eq(p.off, coff):
+                    return cv
+            return self.top_of_type(st, ty, 'symcell')
+        return super().load(st, p, ty, inst)
+
+    def store(self, st, p, v, size, inst):
+        if isinstance(p, PtrVal) and p.obj in self.sym_objs:
+            self.sym_access(st, p, size, inst, 'store')
+            if st.bottom:
+                return
+            self.drop_overlapping(st, p.obj, p.off, Lin(size))
+            st.ghost['cells'] = st.ghost.get('cells', ()) + ((p.obj, p.off, size, v),)
+            st.ghost['events'] = st.ghost.get('events', ()) + (('store', p.off, size),)
+            return
+        return super().store(st, p, v, size, inst)
+
+    def try_peel(self, fn, L, st, frm, rets, max_iter=8, max_states=64):
+        header = L['header']
+        cur = [(st, frm)]
+        out = []
+        for k in range(max_iter + 1):
+            nxt = []
+            for (s, f) in cur:
+                self.eval_phis(fn, header, s, f)
+                latches, exits = self.run_region(fn, L, [(s, f)], rets)
+                nxt.extend(latches)
+                out.extend(exits)
+            if not nxt:
+                return out
+            if len(nxt) > max_states:
+                break
+            cur = nxt
+        raise AnalysisBroken('loop in %s not decided by the configuration (loop at %s)'
+                             % (fn.name, header.term.where()))
+
+
+def cell(T, off, size=8, obj=None):
+    for (cobj, coff, csz, cv) in T.ghost.get('cells', ()):
+        if (obj is None or cobj == obj) and csz == size and T.cons.entails_eq(off, coff):
+            return cv
+    return None
+
+
+class HeapInterp(SymInterp):
+    """SymInterp for one arena object + lock/footprint monitors"""
 
     def __init__(self, mod, arena_id):
-        super().__init__(mod, externals={
+        super().__init__(mod, [arena_id], externals={
             'system_lock': self.ext_lock, 'system_unlock': self.ext_unlock,
             'critical_context_level': self.ext_level,
             'memcpy': self.ext_memcpy,
@@ -66,10 +139,10 @@ class HeapInterp(Interp):
         nl = st.force_u(n) if isinstance(n, IntVal) else None
         for p, kind in ((d, 'memcpy-dst'), (s, 'memcpy-src')):
             if isinstance(p, PtrVal) and p.obj == self.arena and nl is not None:
-                self.arena_access(st, p, nl, i, kind)
+                self.sym_access(st, p, nl, i, kind)
         st.ghost['events'] = st.ghost.get('events', ()) + (('memcpy', d, s, nl),)
         if isinstance(d, PtrVal) and d.obj == self.arena and nl is not None:
-            self.drop_overlapping(st, d.off, nl)
+            self.drop_overlapping(st, d.obj, d.off, nl)
         return [(st, d)]
 
     # ---- monitors ----------------------------------------------------------
@@ -83,7 +156,7 @@ class HeapInterp(Interp):
         if isinstance(p, PtrVal) and p.obj in SHARED and st.ghost.get('lock', 0) < 1:
             self.violation('lock', inst, '%s of %s without the system lock held' % (kind, p.obj.split(':')[1]))
 
-    def arena_access(self, st, p, size, inst, kind):
+    def sym_access(self, st, p, size, inst, kind):
         if st.ghost.get('lock', 0) < 1:
             self.violation('lock', inst, '%s of heap memory without the system lock held' % kind)
         size = size if isinstance(size, Lin) else Lin(size)
@@ -94,56 +167,6 @@ class HeapInterp(Interp):
                        '%s of %r byte(s) at heap offset %r is not provably inside a chunk the operation owns '
                        '(explicit free chunks, the argument chunk, or the area above the break)%s'
                        % (kind, size, p.off, self.explain(st, [p.off])))
-
-    # ---- symbolic-offset memory of the arena -----------------------------------
-    def drop_overlapping(self, st, off, size):
-        keep = []
-        for c in st.ghost.get('cells', ()):
-            (coff, csz, cv) = c
-            if st.cons.entails_le(off + size, coff) or st.cons.entails_le(coff + csz, off):
-                keep.append(c)
-        st.ghost['cells'] = tuple(keep)
-
-    def load(self, st, p, ty, inst):
-        if isinstance(p, PtrVal) and p.obj == self.arena:
-            size = ty.get('size')
-            if ty.get('k') == 'int':
-                size = (ty['bits'] + 7) // 8
-            self.arena_access(st, p, size, inst, 'load')
-            for (coff, csz, cv) in st.ghost.get('cells', ()):
-                if csz == size and st.cons.entails_eq(p.off, coff):
-                    return cv
-            return self.top_of_type(st, ty, 'heapbyte')
-        return super().load(st, p, ty, inst)
-
-    def store(self, st, p, v, size, inst):
-        if isinstance(p, PtrVal) and p.obj == self.arena:
-            self.arena_access(st, p, size, inst, 'store')
-            self.drop_overlapping(st, p.off, Lin(size))
-            st.ghost['cells'] = st.ghost.get('cells', ()) + ((p.off, size, v),)
-            st.ghost['events'] = st.ghost.get('events', ()) + (('store', p.off, size),)
-            return
-        return super().store(st, p, v, size, inst)
-
-    # ---- loops: the free-list walks are decided by the layout, never abstracted ----
-    def try_peel(self, fn, L, st, frm, rets, max_iter=8, max_states=64):
-        header = L['header']
-        cur = [(st, frm)]
-        out = []
-        for k in range(max_iter + 1):
-            nxt = []
-            for (s, f) in cur:
-                self.eval_phis(fn, header, s, f)
-                latches, exits = self.run_region(fn, L, [(s, f)], rets)
-                nxt.extend(latches)
-                out.extend(exits)
-            if not nxt:
-                return out
-            if len(nxt) > max_states:
-                break
-            cur = nxt
-        raise AnalysisBroken('free-list walk in %s not decided by the heap layout (loop at %s)'
-                             % (fn.name, header.term.where()))
 
 
 # --------------------------------------------------------------------------
@@ -188,14 +211,14 @@ class Layout:
         cells = []
         frees = [s for s in self.segs if s.kind == 'F']
         for k, s in enumerate(frees):
-            cells.append((s.start, 8, IntVal(64, s.sz, None)))
+            cells.append((self.arena.id, s.start, 8, IntVal(64, s.sz, None)))
             nx = PtrVal(self.arena.id, frees[k + 1].start) if k + 1 < len(frees) else NULL
-            cells.append((s.start + 8, 8, nx))
+            cells.append((self.arena.id, s.start + 8, 8, nx))
         self.x = None
         for s in self.segs:
             if s.kind == 'X':
                 self.x = s
-                cells.append((s.start, 8, IntVal(64, s.sz, None)))
+                cells.append((self.arena.id, s.start, 8, IntVal(64, s.sz, None)))
         st.ghost['cells'] = tuple(cells)
         st.ghost['regions'] = tuple((s.start, s.end, s.kind) for s in self.segs if s.kind in ('F', 'X')) + \
             ((self.brk, None, 'above-break'),)
@@ -253,13 +276,6 @@ def patterns(max_free, need_x, max_len):
 # --------------------------------------------------------------------------
 class Unreadable(Exception):
     pass
-
-
-def cell(T, off, size=8):
-    for (coff, csz, cv) in T.ghost.get('cells', ()):
-        if csz == size and T.cons.entails_eq(off, coff):
-            return cv
-    return None
 
 
 def as_u(T, v, what):
@@ -366,3 +382,351 @@ def check_inv(T, lay, fl, brk):
         return 'topmost free chunk ends at %r, not provably below the break %r (should have been trimmed)' % (
             prev_end, brk)
     return None
+
+
+# --------------------------------------------------------------------------
+# per-operation verdicts
+# --------------------------------------------------------------------------
+REASONABLE = 1 << 40     # requests up to 2^40 bytes: all clauses; above: only the size/NULL clauses
+HUGE = 1 << 62           # a request this large can never be satisfied: NULL is the only correct answer
+
+
+class Results:
+    """(function, clause) -> [(layout, ok, detail)]"""
+
+    def __init__(self):
+        self.r = {}
+        self.states = 0
+        self.layouts = 0
+
+    def add(self, fn, clause, layout, ok, detail=None):
+        self.r.setdefault((fn, clause), []).append((layout, bool(ok), None if ok else detail))
+
+
+def counter_of(T):
+    v = T.mem.get(('global:__allocation_counter', 0, 4))
+    if not isinstance(v, IntVal):
+        return None
+    return T.as_s(v) if T.as_s(v) is not None else T.as_u(v)
+
+
+def unchanged(T, lay):
+    """free list, break and live counter as on entry"""
+    try:
+        fl = read_freelist(T, lay.arena.id)
+        p = T.mem.get(('global:__brkval', 0, 8))
+    except Unreadable as e:
+        return str(e)
+    want = [(s.start, s.sz) for s in lay.segs if s.kind == 'F']
+    if len(fl) != len(want) or not all(T.cons.entails_eq(a[0], b[0]) and T.cons.entails_eq(a[1], b[1])
+                                       for a, b in zip(fl, want)):
+        return 'free list changed: %r' % (fl,)
+    if lay.virgin:
+        if not (isinstance(p, PtrVal) and (p.is_null or T.cons.entails_eq(p.off, lay.h0))):
+            return 'break changed'
+    elif not (isinstance(p, PtrVal) and p.obj == lay.arena.id and T.cons.entails_eq(p.off, lay.brk)):
+        return 'break changed'
+    c = counter_of(T)
+    if c is None or not T.cons.entails_eq(c, lay.counter):
+        return 'live-block counter changed'
+    return None
+
+
+def quot_of(T, ln):
+    q = T.conv.get(('udivrem', 64, ln.key(), 64))
+    return [(ln, q, 64)] if q is not None else []
+
+
+def bounded(T, ln):
+    T2 = T.fork()
+    T2.cons.add_le(ln, REASONABLE)
+    return None if T2.cons.unsat() else T2
+
+
+def check_alloc_state(res, fn, pre, lay, T, rv, ln, counter_delta=1):
+    """clauses of a fresh allocation (malloc, realloc(NULL, n)) at one return state"""
+    L = lay.name
+    arena = lay.arena.id
+
+    def R(clause, ok, detail=None):
+        res.add(fn, pre + clause, L, ok, detail)
+    R('lock-released-at-return', T.ghost.get('lock', 0) == 0, 'system lock depth %r at return' % T.ghost.get('lock'))
+    if isinstance(rv, PtrVal) and rv.is_null:
+        R('null-only-for-unsatisfiable-request', T.cons.entails_le(HUGE, ln),
+          'NULL returned although the request is not provably huge (>= 2^62 bytes)' + explain(T, ln))
+        u = unchanged(T, lay)
+        R('failed-request-leaves-heap-unchanged', u is None, u)
+        return
+    if not (isinstance(rv, PtrVal) and rv.obj == arena):
+        R('returns-heap-address', False, 'returned value %r is not an address inside the heap' % (rv,))
+        return
+    hdr = rv.off - HDR
+    try:
+        sz = as_u(T, cell(T, hdr), 'size field of the returned chunk')
+    except Unreadable as e:
+        R('returned-chunk-has-size-header', False, str(e))
+        return
+    R('granted-size>=requested-size', T.cons.entails_le(ln, sz),
+      'block of %r bytes returned for a request of %r bytes%s' % (sz, ln, explain(T, ln, sz)))
+    R('min-chunk-size', T.cons.entails_le(MINSZ, sz),
+      'returned chunk has size %r < %d: free() will write its link field past the block' % (sz, MINSZ))
+    T2 = bounded(T, ln)
+    if T2 is None:
+        return
+    res.states += 1
+    R('payload-aligned', aligned(T2, lay, rv.off, quot_of(T2, ln)) and aligned(T2, lay, sz + lay.h0, quot_of(T2, ln)),
+      'returned address %r / size %r not a multiple of the header size above the heap start' % (rv.off, sz))
+    try:
+        fl = read_freelist(T2, arena)
+        brk = read_brk(T2, arena, lay)
+    except Unreadable as e:
+        R('freelist-readable', False, str(e))
+        return
+    B = lay.brk
+    before = lay.free_extents()
+    grown = not T2.cons.entails_eq(brk, B)
+    if grown:
+        before = before + [(B, brk)]
+    after = [(s, s + HDR + z) for (s, z) in fl] + [(hdr, rv.off + sz)]
+    ok, d = same_bytes(T2, before, after)
+    R('bytes-conserved', ok, d)
+    inv = check_inv(T2, lay, fl, brk)
+    R('freelist-invariant', inv is None, inv)
+    R('break', (not grown) or (T2.cons.entails_eq(hdr, B) and T2.cons.entails_eq(brk, rv.off + sz)),
+      'break moved from %r to %r, returned chunk is [%r, %r)' % (B, brk, hdr, rv.off + sz))
+    if grown:
+        fits = [s for s in lay.segs if s.kind == 'F' and not T2.cons.entails_lt(s.sz, sz)]
+        R('reuse-before-grow', not fits, 'break raised although the free chunk at %r (size %r) may fit %r bytes'
+          % (fits[0].start if fits else None, fits[0].sz if fits else None, sz))
+    c = counter_of(T2)
+    R('live-counter', c is not None and T2.cons.entails_eq(c, lay.counter + counter_delta),
+      'live-block counter %r after the call, %r + %d expected' % (c, lay.counter, counter_delta))
+
+
+def explain(T, *lins):
+    syms = set()
+    for l in lins:
+        syms.update(l.t.keys())
+    from lin import cone
+    c = [l for l in cone(T.cons.items, syms) if len(l.t) <= 3]
+    return ' ; path: ' + ', '.join('%r<=0' % l for l in c[:10])
+
+
+def attach_monitors(res, fn, pre, lay, it):
+    fp = [d for (k, s), d in it.viol.items() if k == 'footprint']
+    lk = [d for (k, s), d in it.viol.items() if k == 'lock']
+    res.add(fn, pre + 'footprint', lay.name, not fp, fp[0] if fp else None)
+    res.add(fn, pre + 'lock-held-at-every-heap-access', lay.name, not lk, lk[0] if lk else None)
+    if it.unknown_calls:
+        raise AnalysisBroken('%s calls functions without a summary: %s' % (fn, sorted(it.unknown_calls)))
+
+
+def run_malloc(res, mod, pattern, virgin=False, fn='malloc', pre='', via_realloc=False):
+    lay = Layout(mod, pattern, virgin)
+    it = HeapInterp(mod, lay.arena.id)
+    st = lay.st
+    ln = st.fresh_int(64, False, 'len')
+    f = mod.fn('realloc' if via_realloc else 'malloc')
+    if f is None or f.decl:
+        raise AnalysisBroken('heap function %s not found (anchor vanished)' % fn)
+    rets = it.run_function(f, st, ([NULL] if via_realloc else []) + [ln])
+    res.layouts += 1
+    if not rets:
+        res.add(fn, pre + 'returns', lay.name, False, 'no feasible return')
+    for (T, rv) in rets:
+        check_alloc_state(res, fn, pre, lay, T, rv, ln.u)
+    attach_monitors(res, fn, pre, lay, it)
+
+
+def model_free(lay):
+    """independent interval model of free(X): X becomes free, touching free extents merge, a free
+    extent touching the break is given back"""
+    ext = []
+    prev_free = False
+    for s in lay.segs:
+        if s.kind in ('F', 'X'):
+            if prev_free:
+                ext[-1] = (ext[-1][0], s.end)
+            else:
+                ext.append((s.start, s.end))
+            prev_free = True
+        else:
+            prev_free = False
+    brk = lay.brk
+    if lay.segs and lay.segs[-1].kind in ('F', 'X'):
+        brk = ext.pop()[0]
+    return ext, brk
+
+
+def run_free(res, mod, pattern):
+    lay = Layout(mod, pattern)
+    it = HeapInterp(mod, lay.arena.id)
+    f = mod.fn('free')
+    if f is None or f.decl:
+        raise AnalysisBroken('heap function free not found (anchor vanished)')
+    rets = it.run_function(f, lay.st, [lay.xptr()])
+    res.layouts += 1
+    L = lay.name
+    want, wbrk = model_free(lay)
+    if not rets:
+        res.add('free', 'returns', L, False, 'no feasible return')
+    for (T, rv) in rets:
+        res.states += 1
+        res.add('free', 'lock-released-at-return', L, T.ghost.get('lock', 0) == 0,
+                'system lock depth %r at return' % T.ghost.get('lock'))
+        try:
+            fl = read_freelist(T, lay.arena.id)
+            brk = read_brk(T, lay.arena.id, lay)
+        except Unreadable as e:
+            res.add('free', 'freelist-readable', L, False, str(e))
+            continue
+        got = [(s, s + HDR + z) for (s, z) in fl]
+        ok = len(got) == len(want) and all(T.cons.entails_eq(a[0], b[0]) and T.cons.entails_eq(a[1], b[1])
+                                           for a, b in zip(got, want))
+        res.add('free', 'freelist-equals-merge-model', L, ok,
+                'free list after free() is %r, the interval model (insert, merge neighbours, trim top) gives %r'
+                % (got, want))
+        res.add('free', 'break-lowered-iff-top-chunk-free', L, T.cons.entails_eq(brk, wbrk),
+                'break is %r after free(), the model gives %r' % (brk, wbrk))
+        inv = check_inv(T, lay, fl, brk)
+        res.add('free', 'freelist-invariant', L, inv is None, inv)
+        c = counter_of(T)
+        res.add('free', 'live-counter', L, c is not None and T.cons.entails_eq(c, lay.counter - 1),
+                'live-block counter %r after free(), %r - 1 expected' % (c, lay.counter))
+    attach_monitors(res, 'free', '', lay, it)
+
+
+def run_free_null(res, mod, pattern):
+    lay = Layout(mod, pattern)
+    it = HeapInterp(mod, lay.arena.id)
+    rets = it.run_function(mod.fn('free'), lay.st, [NULL])
+    res.layouts += 1
+    for (T, rv) in rets:
+        u = unchanged(T, lay)
+        res.add('free', 'free(NULL)-is-a-no-op', lay.name, u is None, u)
+    if not rets:
+        res.add('free', 'free(NULL)-is-a-no-op', lay.name, False, 'no feasible return')
+    attach_monitors(res, 'free', 'free(NULL):', lay, it)
+
+
+def run_realloc(res, mod, pattern):
+    lay = Layout(mod, pattern)
+    it = HeapInterp(mod, lay.arena.id)
+    st = lay.st
+    ln = st.fresh_int(64, False, 'len')
+    f = mod.fn('realloc')
+    if f is None or f.decl:
+        raise AnalysisBroken('heap function realloc not found (anchor vanished)')
+    rets = it.run_function(f, st, [lay.xptr(), ln])
+    res.layouts += 1
+    L = lay.name
+    x = lay.x
+    arena = lay.arena.id
+    ln = ln.u
+
+    def R(clause, ok, detail=None):
+        res.add('realloc', clause, L, ok, detail)
+    if not rets:
+        R('returns', False, 'no feasible return')
+    for (T, rv) in rets:
+        R('lock-released-at-return', T.ghost.get('lock', 0) == 0, 'system lock depth %r at return' % T.ghost.get('lock'))
+        if isinstance(rv, PtrVal) and rv.is_null:
+            R('null-only-for-unsatisfiable-request', T.cons.entails_le(HUGE, ln),
+              'NULL returned although the request is not provably huge (>= 2^62 bytes)' + explain(T, ln))
+            u = unchanged(T, lay)
+            if u is None:
+                xs = cell(T, x.start)
+                if not (isinstance(xs, IntVal) and T.as_u(xs) is not None and T.cons.entails_eq(T.as_u(xs), x.sz)):
+                    u = 'size header of the block changed'
+            R('failed-request-leaves-heap-unchanged', u is None, u)
+            continue
+        if not (isinstance(rv, PtrVal) and rv.obj == arena):
+            R('returns-heap-address', False, 'returned value %r is not an address inside the heap' % (rv,))
+            continue
+        hdr = rv.off - HDR
+        try:
+            sz = as_u(T, cell(T, hdr), 'size field of the returned chunk')
+        except Unreadable as e:
+            R('returned-chunk-has-size-header', False, str(e))
+            continue
+        R('granted-size>=requested-size', T.cons.entails_le(ln, sz),
+          'block of %r bytes returned for a request of %r bytes%s' % (sz, ln, explain(T, ln, sz)))
+        R('min-chunk-size', T.cons.entails_le(MINSZ, sz),
+          'returned chunk has size %r < %d: a later free() writes its link field past the block, into the '
+          'header of the following chunk%s' % (sz, MINSZ, explain(T, ln, sz)))
+        T2 = bounded(T, ln)
+        if T2 is None:
+            continue
+        res.states += 1
+        q = quot_of(T2, ln)
+        R('payload-aligned', aligned(T2, lay, rv.off, q) and aligned(T2, lay, sz + lay.h0, q),
+          'returned address %r / size %r not a multiple of the header size above the heap start' % (rv.off, sz))
+        try:
+            fl = read_freelist(T2, arena)
+            brk = read_brk(T2, arena, lay)
+        except Unreadable as e:
+            R('freelist-readable', False, str(e))
+            continue
+        B = lay.brk
+        before = lay.free_extents() + [(x.start, x.end)]
+        after = [(s, s + HDR + z) for (s, z) in fl] + [(hdr, rv.off + sz)]
+        if T2.cons.entails_le(B, brk):
+            before.append((B, brk))
+        elif T2.cons.entails_le(brk, B):
+            after.append((brk, B))
+        else:
+            R('break-decided', False, 'direction of the break move %r -> %r not decided' % (B, brk))
+            continue
+        ok, d = same_bytes(T2, before, after)
+        R('bytes-conserved', ok, d)
+        inv = check_inv(T2, lay, fl, brk)
+        R('freelist-invariant', inv is None, inv)
+        events = T2.ghost.get('events', ())
+        px = x.start + HDR
+        inplace = T2.cons.entails_eq(rv.off, px)
+        c = counter_of(T2)
+        R('live-counter', c is not None and T2.cons.entails_eq(c, lay.counter),
+          'live-block counter %r after realloc() of a live block, %r expected (one block before, one after)'
+          % (c, lay.counter))
+        if inplace:
+            bad = None
+            for ev in events:
+                if ev[0] == 'memcpy':
+                    bad = 'memcpy during an in-place realloc'
+                    break
+                (_, off, size) = ev
+                if not (T2.cons.entails_le(off + size, px) or T2.cons.entails_le(px + x.sz, off)
+                        or T2.cons.entails_le(px + sz, off)):
+                    bad = 'store of %d bytes at %r inside the preserved prefix [%r, +min(%r, %r))' % (size, off, px, x.sz, sz)
+                    break
+            R('prefix-preserved-in-place', bad is None, bad)
+        else:
+            moved = T2.cons.entails_le(x.end, hdr) or T2.cons.entails_le(rv.off + sz, x.start)
+            bad = None
+            if not moved:
+                bad = 'returned block [%r, %r) neither the old block nor disjoint from it' % (hdr, rv.off + sz)
+            copies = [e for e in events if e[0] == 'memcpy']
+            if bad is None and len(copies) != 1:
+                bad = '%d memcpy calls on the move path' % len(copies)
+            if bad is None:
+                (_, d_, s_, n_) = copies[0]
+                if not (isinstance(d_, PtrVal) and d_.obj == arena and T2.cons.entails_eq(d_.off, rv.off)
+                        and isinstance(s_, PtrVal) and s_.obj == arena and T2.cons.entails_eq(s_.off, px)
+                        and n_ is not None and T2.cons.entails_eq(n_, x.sz)):
+                    bad = 'memcpy(%r, %r, %r) is not (new block, old block, old size %r)' % (d_, s_, n_, x.sz)
+                elif not T2.cons.entails_le(x.sz, sz):
+                    bad = 'old size %r copied into a block of %r bytes' % (x.sz, sz)
+            if bad is None:
+                seen_copy = False
+                for ev in events:
+                    if ev[0] == 'memcpy':
+                        seen_copy = True
+                        continue
+                    (_, off, size) = ev
+                    lo, hi = (rv.off, rv.off + x.sz) if seen_copy else (px, px + x.sz)
+                    if not (T2.cons.entails_le(off + size, lo) or T2.cons.entails_le(hi, off)):
+                        bad = ('store of %d bytes at %r into the %s before/after the copy'
+                               % (size, off, 'copied data' if seen_copy else 'old block'))
+                        break
+            R('prefix-preserved-on-move', bad is None, bad)
+    attach_monitors(res, 'realloc', '', lay, it)
